@@ -248,6 +248,21 @@ def run_tlc_trace(module, trace_path, cfg=None, timeout=3600, env_extra=None, xm
     return res
 
 
+def run_tlapm(module, timeout=900):
+    """tlapm check of spec/proofs/<module>.tla. Returns {"result": "Proved" | "Failed", "obligations": n}."""
+    t0 = time.time()
+    try:
+        p = subprocess.run(["tlapm", "--threads", "8", module + ".tla"], cwd=os.path.join(SPEC, "proofs"), stdout=subprocess.PIPE,
+                           stderr=subprocess.STDOUT, text=True, timeout=timeout)
+    except subprocess.TimeoutExpired:
+        return {"result": "Timeout", "wall_s": time.time() - t0, "module": module, "inv": "(all theorems)"}
+    m = re.search(r"All (\d+) obligations? proved", p.stdout)
+    if m:
+        return {"result": "Proved", "obligations": int(m.group(1)), "wall_s": time.time() - t0, "module": module, "inv": "(all theorems)"}
+    log(p.stdout[-2000:])
+    return {"result": "Failed", "wall_s": time.time() - t0, "module": module, "inv": "(all theorems)"}
+
+
 def run_apalache(module, inv, length=0, init=None, cinit=None, timeout=900, extra=()):
     """apalache-mc check of spec/lemmas/<module>.tla. Returns 'NoError' | 'Error' (counterexample) ;
     raises ToolError on timeouts and tool errors."""
